@@ -41,6 +41,7 @@ type evidence struct {
 	Violations   int
 	Problems     []string
 	NativeBuildS float64
+	RaceNative   []string
 	wall         float64
 	ps           *propSpec
 }
@@ -141,6 +142,7 @@ func (e *evidence) toJSON() map[string]any {
 		"harnesses":          e.harnesses,
 		"native_build_s":     e.NativeBuildS,
 		"problems":           e.Problems,
+		"races_native":       e.RaceNative,
 		"encoding":           "regenerated from /repo's working tree on this run (go/packages + go/ssa with the harness overlay; nothing cached)",
 	}
 	if e.ps != nil && e.ps.Bounds != "" {
